@@ -417,6 +417,8 @@ func (p *Plugin) processMask(event *pipeline.Event, curNode *insaneJSON.Node, fm
 		return false
 	}
 	p.sourceBuf = p.sourceBuf[:0]
+	// sourceLoaded means sourceBuf holds the value: initial or transformed (possibly emptied by a mask)
+	sourceLoaded := false
 	for i := range p.config.Masks {
 		if p.hasProcessOrIgnoreFields { // check process/ignore fields lists
 			switch {
@@ -449,9 +451,10 @@ func (p *Plugin) processMask(event *pipeline.Event, curNode *insaneJSON.Node, fm
 		}
 		shouldApplyMask := mask.Re != "" && len(mask.Groups) > 0
 		if shouldApplyMask {
-			if len(p.sourceBuf) == 0 {
+			if !sourceLoaded {
 				// copy node value to process in mask only once when required
 				p.sourceBuf = append(p.sourceBuf[:0], value...)
+				sourceLoaded = true
 			}
 			// check value for mask application and apply mask if it matches
 			// maskBuf is used for allocation optimization, we cannot use only sourceBuf
